@@ -358,8 +358,11 @@ def run(ctx):
             if p.kind() != "ok":
                 continue
             # loop exits: only the two sanctioned conditions may end the loop
-            for e in p.events:
-                if e.name == "std::iter::Iterator::next":
+            # (an iterator that is only stepped with `next().unwrap()` cannot end the loop: exhaustion aborts, exactly like
+            # `last().unwrap()` on an emptied list; what is refused is a path that leaves the loop BECAUSE `next()` was None)
+            for (at, o, _b, _l) in p.conds:
+                if o is False and tag(at) == "op" and payload(at)[0] == "is_some" and tag(kids(at)[0]) == "call" and \
+                        str(payload(kids(at)[0])[0]) == "std::iter::Iterator::next":
                     bad = bad or "the averaging loop is driven by an iterator (an exit other than history exhausted / window start)"
             r = N(ix, sym.unwrap(p.ret))
             # what the path knows about the interval and the length of the history
